@@ -16,7 +16,8 @@ LEVEL = "fault_enumeration"
 RULE = (
     "Hypothesis draws valid delimited streams (pyjelly-written and reference-encoder-written, up to ~20 frames, incl. "
     "leading / interior empty frames, some frames > 127 bytes so that length prefixes are multi-byte); for each stream "
-    "EVERY cut offset k in [0, len] is enumerated x source {BytesIO, non-seekable short-reading raw ending in EOF, the same "
+    "EVERY cut offset k in [0, len] is enumerated (for the rare stream > 3000 bytes: every offset within 8 bytes of a frame "
+    "boundary or length prefix and every 251st in between) x source {BytesIO, non-seekable short-reading raw ending in EOF, the same "
     "raw source and a BufferedReader over it ending in an exception (connection reset)} x {flat, grouped} x "
     "generic (and rdflib flat for RDF 1.1 content). Items are collected until StopIteration or any Exception. Oracle: "
     "(i) the items are a prefix of the full parse (never a foreign or reordered item; for grouped: sink j == sink j of the "
@@ -34,9 +35,9 @@ ASSUMPTIONS = [
 def case_strategy(draw):
     src = draw(scen.stream_source(max_len=8, delimited=True))
     if src["source"] == "pyjelly" and draw(st.booleans()):
-        # a long literal makes some frame exceed 127 bytes -> two-byte length prefix
+        # a long literal makes some frame exceed 127 bytes -> two-byte length prefix; rarely > 16383 -> three bytes
         if src["statements"]:
-            src["statements"][0][2] = ["lit", "L" * draw(st.sampled_from([130, 200])), None, None]
+            src["statements"][0][2] = ["lit", "L" * draw(st.sampled_from([130, 200, 200, 130, 17000])), None, None]
     return {"src": src, "schedule": draw(st.sampled_from([[1], [2], [3], [5, 1], [64]]))}
 
 
@@ -75,7 +76,13 @@ def body(case, acc):
     if acc is not None and len(acc.extra.setdefault("sample_streams", [])) < 1:
         acc.extra["sample_streams"].append({"case": case, "bytes_hex": data.hex(), "frame_ends": ends,
                                             "cut_offsets": f"0..{len(data)} (all)"})
-    for k in range(len(data) + 1):
+    if len(data) > 3000:
+        # a very large frame: every offset near a frame boundary or a length prefix, and every 251st offset in between
+        offsets = sorted({k for e in [0, *ends] for k in range(max(0, e - 6), min(len(data), e + 8) + 1)}
+                         | set(range(0, len(data) + 1, 251)) | {len(data)})
+    else:
+        offsets = range(len(data) + 1)
+    for k in offsets:
         if only_k is not None and k != only_k:
             continue
         complete = sum(1 for e in ends if e <= k)
